@@ -299,6 +299,13 @@ func (i *Lifecycler) checkRingHealthForReadiness(ctx context.Context) error {
 		return fmt.Errorf("no ring returned from the KV store")
 	}
 
+	// Whatever the health of the others, this instance itself must be registered in the ring
+	// (it is not after the ring has been reset and before this instance has re-registered).
+	instance, ok := ringDesc.Ingesters[i.ID]
+	if !ok {
+		return fmt.Errorf("instance %s not found in the ring", i.ID)
+	}
+
 	if i.cfg.ReadinessCheckRingHealth {
 		if err := ringDesc.IsReady(time.Now(), i.cfg.RingConfig.HeartbeatTimeout); err != nil {
 			level.Warn(i.logger).Log("msg", "found an existing instance(s) with a problem in the ring, "+
@@ -308,11 +315,6 @@ func (i *Lifecycler) checkRingHealthForReadiness(ctx context.Context) error {
 			return err
 		}
 	} else {
-		instance, ok := ringDesc.Ingesters[i.ID]
-		if !ok {
-			return fmt.Errorf("instance %s not found in the ring", i.ID)
-		}
-
 		if err := instance.IsReady(time.Now(), i.cfg.RingConfig.HeartbeatTimeout); err != nil {
 			return err
 		}
